@@ -68,8 +68,11 @@ theorem deserializeFrom_read_le (b : Bytes) (n readLen : Nat) (h : readLen ≤ b
     · cases hr
 
 theorem deserializeCellBlocks_read_le {b : Bytes} {n : Nat} {cs : List Cell} {r : Nat}
-    (h : deserializeCellBlocks b n = .ok (cs, r)) : r ≤ b.length :=
-  deserializeFrom_read_le b n 0 (Nat.zero_le _) h
+    (h : deserializeCellBlocks b n = .ok (cs, r)) : r ≤ b.length := by
+  unfold deserializeCellBlocks at h
+  split at h
+  · cases h
+  · exact deserializeFrom_read_le b n 0 (Nat.zero_le _) h
 
 theorem getDeserialize_no_fault (r : GetResp) (b : Bytes) : (getDeserialize r b).isFault = false := by
   unfold getDeserialize
